@@ -185,6 +185,21 @@ class JGen(sg.Gen):
             self.hot.append(self.nh)
             self.created(1)
 
+    def fresh_round(self):
+        """entities created through the shared Entities resource (alive, but not merged until the next maintain),
+        given components on the spot: joins and other-entity lookups before the maintain must see them"""
+        rng = self.rng
+        if rng.random() < 0.5:
+            owners = [h for h in self.hot if h in self.live]
+            if owners:
+                h = rng.choice(owners)
+                self.hist.append((wg.D, [h]))       # frees an index that the atomic creation may take
+                self.kill(h)
+        for _ in range(rng.randint(1, 3)):
+            self.hist.append((wg.EB, [1] + self.comps(3)))
+            self.hot.append(self.nh)
+            self.created(1)
+
     # ------------------------------------------------------------------ members
     def some_handle(self):
         """live with / without component, dead, stale: whatever the pools give"""
@@ -594,6 +609,8 @@ def join_history(rng, length, focus="join"):
             g.reader_op()
         elif r < p_join + p_cs + 0.45 and rng.random() < 0.5:
             g.stale_round()
+        elif r < p_join + p_cs + 0.49:
+            g.fresh_round()
         else:
             g.direct_op()
     # final observations
